@@ -78,7 +78,8 @@ def _marker_of(resp):
     return getattr(resp, "throttle_time_ms", None)
 
 
-VERSIONS = {3: (0, 5), 10: (0, 1), 21: (0, 2), 18: (0, 2), 12: (0, 1), 0: (0, 7), 17: (0, 1)}
+# (SaslHandshake is advertised with a single version: min == max is a legal range)
+VERSIONS = {3: (0, 5), 10: (0, 1), 21: (0, 2), 18: (0, 2), 12: (0, 1), 0: (0, 7), 17: (1, 1)}
 
 
 class Peer:
@@ -311,6 +312,11 @@ def execute(case):
                 out.fail("fail_all", "result_after_failure", {"i": i, "fault": case["fault"]})
     if obs["pending"]:
         out.fail("fail_all", "waiter_left_pending", {"pending": obs["pending"], "fault": case.get("fault")})
+    # a request the connection refuses to send although it is open and the peer supports the API
+    for i, spec in enumerate(reqs):
+        w = ws.get(i)
+        if w is not None and "send_error" in w and w["send_error"][0] not in conn_errors:
+            out.fail("own_reply", "send_raised:" + w["send_error"][0], {"i": i, "api": spec["api"], "error": w["send_error"][1][:200]})
     # waiters that must have been served: reply fully delivered well before their deadline and any fault
     for i, spec in enumerate(reqs):
         w = ws.get(i)
